@@ -60,6 +60,21 @@ ShapeDef(i) ==
                   @@ A("S1", 2, 1) :> Fm(CallN("SUM", <<Rng("", 1, 1, 1, 3)>>))
                   @@ A("S1", 3, 1) :> Fm(Bin("+", CallN("SUM", <<Rng("", 1, 1, 1, 2)>>), CallN("SUM", <<Rng("", 1, 2, 1, 3), RelRef(2, 1)>>))) ),
          names |-> <<>>, inputs |-> {A("S1", 1, 1), A("S1", 1, 2)}]
+    [] i = "kinds" ->        \* every kind of constant and of computed result (C12)
+        [cells |-> ( A("S1", 1, 1) :> Kc(1)
+                  @@ A("S1", 1, 2) :> [c |-> "const", v |-> Txt(<<104, 233, 108, 108, 111, 32, 931>>)]
+                  @@ A("S1", 1, 3) :> [c |-> "const", v |-> [t |-> "float", v |-> "1e+300"]]
+                  @@ A("S1", 1, 4) :> [c |-> "const", v |-> [t |-> "float", v |-> "5e-324"]]
+                  @@ A("S1", 1, 5) :> [c |-> "const", v |-> Bool(TRUE)]
+                  @@ A("S1", 1, 6) :> [c |-> "const", v |-> DateT(43890, 1, 2)]
+                  @@ A("S1", 1, 7) :> [c |-> "const", v |-> Rat(5, 2)]
+                  @@ A("S 2", 1, 1) :> Kc(1)
+                  @@ A("S1", 2, 1) :> Fm(Bin("/", N1, Bin("-", RelRef(1, 1), N1)))
+                  @@ A("S1", 2, 2) :> Fm(Bin("&", RelRef(1, 2), StrLit(<<120>>)))
+                  @@ A("S1", 2, 3) :> Fm(Bin(">", RelRef(1, 1), N1))
+                  @@ A("S1", 2, 4) :> Fm(Bin("+", CallN("SUM", <<Rng("", 1, 1, 1, 1), Ref("S 2", 1, 1, FALSE, FALSE)>>), NameRef("Rate")))
+                  @@ A("S 2", 2, 1) :> Fm(Bin("*", RelRef(1, 1), Ref("S1", 1, 7, TRUE, TRUE))) ),
+         names |-> ("Rate" :> Ref("S1", 1, 1, TRUE, TRUE)), inputs |-> {A("S1", 1, 1), A("S 2", 1, 1)}]
     [] i = "named" ->
         [cells |-> ( A("S1", 1, 1) :> Kc(1) @@ A("S1", 1, 2) :> Kc(1)
                   @@ A("S1", 2, 1) :> Fm(Bin("+", Bin("*", NameRef("Rate"), N2), RelRef(1, 2)))
@@ -111,6 +126,10 @@ MechEval(c) == IF content[c].c = "const" THEN content[c].v
 MechReach(c) == IF content[c].c = "const" \/ c \in Frozen THEN {}
                 ELSE {d \in Reach(content, c) : \A e \in Reach(content, c) : TRUE} \ {d \in Reach(content, c) : d \in Frozen /\ d # c}
 
+\* a history ends with its Persist / Extract step
+Closed == Len(hist) > 0 /\ hist[Len(hist)].op \in {"persist", "extract"}
+CanStep == Len(hist) < MaxLen /\ ~Closed
+
 Record(op, x, v, res) == Append(hist, [op |-> op, x |-> x, v |-> v, res |-> res,
                                        stored |-> [c \in DOMAIN stored' |-> stored'[c]]])
 
@@ -120,7 +139,7 @@ Init == /\ shape \in ShapeIds
         /\ evald = {} /\ gmemo = <<>> /\ obs = [op |-> "none"] /\ hist = <<>> /\ leak = 0
 
 Set(a, n) ==
-    /\ Len(hist) < MaxLen /\ a \in Inputs
+    /\ CanStep /\ a \in Inputs
     /\ inp' = [inp EXCEPT ![a] = Whole(n)]
     /\ stored' = [c \in DOMAIN stored \cup {a} |-> IF c = a THEN Whole(n) ELSE stored[c]]
     /\ obs' = [op |-> "set", x |-> a]
@@ -128,7 +147,7 @@ Set(a, n) ==
     /\ UNCHANGED <<shape, evald, gmemo, leak>>
 
 SetByName(nm, n) ==
-    /\ Len(hist) < MaxLen /\ nm \in Names
+    /\ CanStep /\ nm \in Names
     /\ LET t == ShapeDef(shape).names[nm]  a == <<t.sheet, t.col, t.row>> IN
        /\ inp' = [inp EXCEPT ![a] = Whole(n)]
        /\ stored' = [c \in DOMAIN stored \cup {a} |-> IF c = a THEN Whole(n) ELSE stored[c]]
@@ -138,7 +157,7 @@ SetByName(nm, n) ==
     /\ UNCHANGED <<shape, evald, gmemo, leak>>
 
 Evaluate(e, c) ==
-    /\ Len(hist) < MaxLen /\ c \in Cells
+    /\ CanStep /\ c \in Cells
     /\ LET v == MechEval(c)
            reached == IF content[c].c = "const" THEN {} ELSE Reach(content, c) \ (Frozen \ {c})
            wbSeen == Wb(Seen(content))
@@ -155,13 +174,42 @@ Evaluate(e, c) ==
     /\ UNCHANGED <<shape, inp>>
 
 Get(c) ==
-    /\ Len(hist) < MaxLen /\ c \in DOMAIN stored
+    /\ CanStep /\ c \in DOMAIN stored
     /\ obs' = [op |-> "get", x |-> c, res |-> stored[c]]
     /\ hist' = Append(hist, [op |-> "get", x |-> c, v |-> [t |-> "none"], res |-> stored[c],
                              stored |-> [d \in DOMAIN stored |-> stored[d]]])
     /\ UNCHANGED <<shape, inp, stored, evald, gmemo, leak>>
 
-Next == \/ "set" \in Ops /\ \E a \in Inputs, n \in SetVals : Set(a, n)
+\* Persist: the history ends; the entry carries what a restored model must hold and compute (C12)
+Persist == /\ "persist" \in Ops /\ ~Closed
+           /\ hist' = Append(hist, [op |-> "persist", x |-> <<"", 0, 0>>, v |-> [t |-> "none"], res |-> [t |-> "none"],
+                                    stored |-> [c \in DOMAIN stored |-> stored[c]],
+                                    fresh |-> [c \in Cells |-> FreshAny(content, c)]])
+           /\ obs' = [op |-> "persist"]
+           /\ UNCHANGED <<shape, inp, stored, evald, gmemo, leak>>
+
+\* Extract(focus): the cells the focus depends on, directly or transitively (C13)
+RECURSIVE ClosureN(_, _)
+ClosureN(S, n) == IF n = 0 THEN S
+                  ELSE ClosureN(S \cup UNION {RefsOf(content[c].ast, c[1]) \cap Cells : c \in {d \in S : content[d].c = "formula"}}, n - 1)
+Closure(F) == ClosureN(F, Cardinality(Cells))
+NameCell(nm) == LET t == ShapeDef(shape).names[nm] IN <<t.sheet, t.col, t.row>>
+Extract(fc, fn) == \* fc: focused cells, fn: focused names
+    /\ "extract" \in Ops /\ ~Closed /\ (fc # {} \/ fn # {})
+    /\ LET F == fc \cup {NameCell(nm) : nm \in fn} IN
+       hist' = Append(hist, [op |-> "extract", x |-> <<"", 0, 0>>, v |-> [t |-> "none"], res |-> [t |-> "none"],
+                             stored |-> [c \in DOMAIN stored |-> stored[c]],
+                             focus |-> fc, fnames |-> fn, closure |-> Closure(F),
+                             fresh |-> [c \in F |-> FreshAny(content, c)],
+                             \* the same input changes applied to both models afterwards
+                             after |-> [a \in Inputs \cap Closure(F) |-> [c \in F |->
+                                          FreshAny([content EXCEPT ![a] = [c |-> "const", v |-> Whole(7)]], c)]]])
+    /\ obs' = [op |-> "extract"]
+    /\ UNCHANGED <<shape, inp, stored, evald, gmemo, leak>>
+
+Next == \/ Persist
+        \/ \E fc \in SUBSET Cells, fn \in SUBSET Names : Extract(fc, fn)
+        \/ "set" \in Ops /\ \E a \in Inputs, n \in SetVals : Set(a, n)
         \/ "setname" \in Ops /\ \E nm \in Names, n \in SetVals : SetByName(nm, n)
         \/ "evaluate" \in Ops /\ \E e \in 1..NEval, c \in Cells : Evaluate(e, c)
         \/ "get" \in Ops /\ \E c \in DOMAIN stored : Get(c)
@@ -181,6 +229,10 @@ EvaluateFrame == [][(\E e \in 1..NEval, c \in Cells : Evaluate(e, c)) => UNCHANG
 Footprint == /\ leak = 0
              /\ Cardinality(DOMAIN stored) <= Cardinality(Cells)
              /\ Cardinality(evald) <= Cardinality(Cells)
+\* Closure is extensive, idempotent and contains everything a focused formula cell mentions (C13)
+ClosureLaws == \A c \in Cells : /\ c \in Closure({c})
+                                 /\ Closure(Closure({c})) = Closure({c})
+                                 /\ (content[c].c = "formula" => (RefsOf(content[c].ast, c[1]) \cap Cells) \subseteq Closure({c}))
 \* idempotence: evaluating the same cell again, by any evaluator, gives the same response
 Idempotent == \A i \in 1..Len(hist), j \in 1..Len(hist) :
                  (hist[i].op = "evaluate" /\ hist[j].op = "evaluate" /\ hist[i].x = hist[j].x
